@@ -2,3 +2,6 @@
 FUNCS = ["PathGenerator.__call__", "ConfigWalkContext.currentpath", "ConfigInformation.seal.Sealer.postprocess"]
 LEVEL = "proof"
 TRUSTED = []
+
+from bounded.wire import run_c17
+BOUNDED = [("generated paths on enumerated graphs", run_c17)]
